@@ -191,7 +191,18 @@ func vpC31Fill(seed uint64, n int) []byte {
 func vpC31Transfer(src, dst *QuicClient, data []byte, limit uint32) error {
 	wantReject := uint32(len(data)) > limit
 	sendCh := make(chan error, 1)
-	go func() { sendCh <- src.Send(data) }()
+	// an accepted frame is followed at once by a short trailer frame on the same
+	// stream: bytes a sender failed to write for the first frame would be made
+	// up from the trailer's header, so a short write shows as wrong content, not
+	// as a receiver waiting for its deadline
+	trailer := []byte(fmt.Sprintf("trailer-%08x", len(data)))
+	go func() {
+		err := src.Send(data)
+		if err == nil && !wantReject {
+			err = src.Send(trailer)
+		}
+		sendCh <- err
+	}()
 	r, trouble := vpC31Recv(dst, limit)
 	if trouble != nil {
 		return trouble
@@ -265,6 +276,19 @@ func vpC31Transfer(src, dst *QuicClient, data []byte, limit uint32) error {
 			i++
 		}
 		return fmt.Errorf("frame of %d bytes received as %d bytes, first difference at %d", len(data), len(r.msg.Data), i)
+	}
+	r2, trouble := vpC31Recv(dst, TransportMessageMaxSize)
+	if trouble != nil {
+		return trouble
+	}
+	if r2.err != nil {
+		if vpC31IsSizeVerdict(r2.err) || strings.Contains(r2.err.Error(), "invalid message version") {
+			return fmt.Errorf("the frame following a %d byte frame is not parsed as a frame: %v", len(data), r2.err)
+		}
+		return vpC31Troublef("receive of the trailer after a %d byte frame: %v", len(data), r2.err)
+	}
+	if r2.msg == nil || !bytes.Equal(r2.msg.Data, trailer) {
+		return fmt.Errorf("the frame following a %d byte frame was not delivered intact", len(data))
 	}
 	return nil
 }
